@@ -40,7 +40,7 @@ ASSUMPTIONS = [
 ]
 SETTINGS: Dict[str, Dict[str, Any]] = {
     "quick": {"cases": 160, "budget_s": 60, "minimums": {"rows_checked": 1000, "nontrivial": 40, "sheets_checked": 400, "size_sweep_cases": 36}, "required_tags": {"tag_sheets": sorted(set(TAX_SHEET_OF_TYPE.values())), "tag_country": ["us", "ie"]}},
-    "thorough": {"cases": 3000, "budget_s": 420, "minimums": {"rows_checked": 8000, "nontrivial": 400, "sheets_checked": 4000, "size_sweep_cases": 150}, "required_tags": {"tag_sheets": sorted(set(TAX_SHEET_OF_TYPE.values())), "tag_country": ["us", "ie"]}},
+    "thorough": {"cases": 3000, "budget_s": 420, "minimums": {"rows_checked": 4800, "nontrivial": 240, "sheets_checked": 2400, "size_sweep_cases": 90}, "required_tags": {"tag_sheets": sorted(set(TAX_SHEET_OF_TYPE.values())), "tag_country": ["us", "ie"]}},
 }
 
 
